@@ -45,7 +45,7 @@ const void* g_blocked_on[MAXT];
 // condition variables
 std::atomic<const void*> g_cv_wait[MAXT];   // what a simulated thread waits on (null: not waiting)
 long g_cv_seq[MAXT]; int g_cv_timed[MAXT]; int g_cv_result[MAXT];
-int g_cv_spurious_left = 0; long g_cv_spurious = 0;
+int g_cv_spurious_left = 0; long g_cv_spurious = 0; long g_cv_nonfifo = 0;
 // spin waits
 uint64_t g_entries_resume[MAXT + 1]; uint64_t g_entries_point[MAXT + 1]; uint64_t g_max_gap = 0; int g_max_gap_reason = -1, g_max_gap_prev = -1; unsigned g_max_gap_tag = 0;
 long g_spin_limit = 0; int g_spin_budget = 60; int g_spin_consec[MAXT]; long g_spin_yields = 0;
@@ -247,7 +247,7 @@ void vs_sim_begin(uint64_t seed, int nthreads, int policy, int pct_depth,
   g_freerun.store(0);
   g_nlock_seen = 0; g_lock_blocks = 0; g_lock_ops = 0;
   g_cv_arrivals = g_cv_waits = g_cv_notifies = g_cv_empty_notifies = g_cv_timeouts = 0;
-  g_cv_spurious_left = 0; g_cv_spurious = 0;
+  g_cv_spurious_left = 0; g_cv_spurious = 0; g_cv_nonfifo = 0;
   g_spin_yields = 0; g_max_gap = 0; g_livelock.store(0);
   for (int t = 0; t < MAXT; ++t) { g_spin_consec[t] = 0; g_entries_resume[t] = 0; g_entries_point[t] = 0; g_probe_left[t] = 0; g_probe_n[t] = 0; }
   g_active = true;
@@ -697,6 +697,7 @@ long vs_spin_yields(void) { return g_spin_yields; }
 unsigned long long vs_max_entry_gap(void) { return g_max_gap; }
 int vs_max_entry_gap_where(int* prev, unsigned* tag) { if (prev) *prev = g_max_gap_prev; if (tag) *tag = g_max_gap_tag; return g_max_gap_reason; }
 long vs_cv_spurious_fired(void) { return g_cv_spurious; }
+long vs_cv_nonfifo(void) { return g_cv_nonfifo; }
 
 static int cv_wait_sim(const void* c, pthread_mutex_t* m, int timed) {
   const int t = tl_tid;
@@ -719,10 +720,18 @@ static int cv_wait_sim(const void* c, pthread_mutex_t* m, int timed) {
 static int cv_notify_sim(const void* c, int all) {
   int woken = 0;
   for (;;) {
-    int best = -1;
+    int best = -1, cand[MAXT], nc = 0;
     for (int u = 0; u < g_nthreads; ++u)
-      if (g_cv_wait[u].load() == c && (best < 0 || g_cv_seq[u] < g_cv_seq[best])) best = u;
+      if (g_cv_wait[u].load() == c) { cand[nc++] = u; if (best < 0 || g_cv_seq[u] < g_cv_seq[best]) best = u; }
     if (best < 0) break;
+    // POSIX lets notify_one wake any waiter: with two or more simulated waiters the choice is a seeded
+    // scheduling decision (the draw happens only then, so runs without contended condition variables keep
+    // their schedule stream); the running thread is the only one executing, so g_rng is not shared
+    if (!all && nc >= 2 && tl_tid >= 0 && g_active && !in_freerun()) {
+      const int pick = cand[g_rng.below((uint32_t)nc)];
+      if (pick != best) ++g_cv_nonfifo;
+      best = pick;
+    }
     g_cv_result[best] = 0;
     g_cv_wait[best].store(nullptr);
     if (g_state[best].load() == S_BLOCKED && g_blocked_on[best] == c) { g_blocked_on[best] = nullptr; g_state[best].store(S_PARKED); }
